@@ -97,3 +97,7 @@ package console
 //vc:func (*Conn).StripEcho
 //vc:  set lastRemainder = result
 //vc:  ensures[C09] lastRemainder == result
+
+// C17: the session log receives device output only: logString is reached from
+// the two functions that read from the device, never from Send.
+//vc:only[C17] (*Conn).logString in (*Conn).expectLog, (*Conn).TryPrompt
